@@ -193,7 +193,9 @@ def run(ctx):
     ctx.tested_not_proved = [
         "floating-point accuracy of the inverse laws (1e-8*scale) - tested on the implementation",
         "Python wrapper glue (atleast_1d/astype/reshape, default mean and initial value)"]
-    proved = cm.prove(ctx)
+    # theorems (incl. refinement of the regenerated MiniC program) + translator/interpreter
+    # vs the compiled kernels (binary64, inside Coq)
+    proved = cm.prove_with_kernels(ctx, ["c_armodel_sim", "c_armodel_residual"], extractors=[])
     cm.use_impl()
     n = ctx.scale(900, 12000)
     cases, terms, results = [], [], []
